@@ -281,6 +281,7 @@ def check_case_c32(eoc, ops, recs):
     committed = []
     committed_persistent = {}
     pending_failure = False
+    failure_at = -2
     prev = None
     for j, (op, r) in enumerate(zip(ops, recs)):
         if r is None:
@@ -299,6 +300,11 @@ def check_case_c32(eoc, ops, recs):
             if r["txn"][2]:
                 return dict(i=j, check="R3", sig="session-active-after-failed-flush", detail="session.is_active is True right after a failed flush")
             pending_failure = True
+            failure_at = j
+        elif pending_failure and j != failure_at + 1:
+            # something else happened between the failed flush and rollback(): the application
+            # changed the session itself, the restoration claims below no longer apply as stated
+            pending_failure = False
         elif pending_failure and kind == "rollback":
             if r["res"] != "ok" or r["txn"][0] != 0 or not r["txn"][2]:
                 return dict(i=j, check="R3", sig="rollback-after-failed-flush-" + r["res"].replace("err:", ""),
